@@ -2975,6 +2975,7 @@ ythread_create(ABTI_global *p_global, ABTI_local *p_local, ABTI_pool *p_pool,
             /* Add this thread to the pool */
             ABTI_pool_push(p_pool, p_newthread->thread.unit,
                            ABT_POOL_CONTEXT_OP_THREAD_CREATE);
+            ABTI_VERIF_POINT(ABTI_VERIF_P_CREATE_AFTER_PUSH);
         }
     } else {
         /* pool_op == THREAD_POOL_OP_NONE */
